@@ -69,6 +69,7 @@ type zzC19Gen struct {
 	zeroDim   bool // an array or vector with a dimension of 0
 	htNested  bool // a hash table inside a list or vector
 	nonAdjVec bool // a non-adjustable vector anywhere
+	multiHT   bool // a hash table with more than one entry (its load form depends on Go map order)
 	depth     int
 	quoted    int  // >0 while inside a vector/array (quoted literal in the load form)
 	conc      bool // leaves are fixed values instead of symbolic ones (text round trip)
@@ -279,6 +280,9 @@ func (g *zzC19Gen) value() slip.Object {
 			ht[key] = val
 		}
 		g.pos++
+		if 1 < len(ht) {
+			g.multiHT = true
+		}
 		return ht
 	}
 	panic("zzC19Gen: bad shape " + g.src)
@@ -698,14 +702,14 @@ func VerifC19Lambda(tmpl int) {
 // ---------------------------------------------------------------------------
 
 var zzC19TextShapes = []string{
-	/* 0 */ "(ssssssss)", "((iii)(sss)(iii)(sss))", "(i(s(i(s(i(s(i)))))))", "{YiSsInYs}", "(bBrcte)", "[ssssss]", "#2x3ssssss;", "(ss.s)", "(ssss.s)", "(k(ks)[is]{Yi}.s)",
+	/* 0 */ "(ssssssss)", "((iii)(sss)(iii)(sss))", "(i(s(i(s(i(s(i)))))))", "{YiSsInYs}", "(bBcte)", "[ssssss]", "#2x3ssssss;", "(ss.s)", "(ssss.s)", "(k(ks)[is]{Yi}.s)",
 	/* 10 */ "([s[s[s[ss]]]])", "(((((((ssss)))))))", "{Y[ssss]Ys}", "(s{Ss}s{Ss}s)", "(iiiiiiiiiiiiiiiiiiii)", "([]()e)", "<ssss>", "#2x2![ss](ss)sn;", "(yy(yy).y)", "{Yy}",
-	/* 20 (thorough) */ "(ssssssssssssssss)", "((ss(ss(ss(ss(ss))))))", "{YsYsYsYsYsYs}", "#2x2x2ssssssss;", "([ss][ss][ss][ss])", "(sss.s)", "{Y[s[s[s]]]}", "(bbbbbb)", "(rrrrrrrr)", "(cccccccccccccccccccc)",
+	/* 20 (thorough) */ "(ssssssssssssssss)", "((ss(ss(ss(ss(ss))))))", "{YsYsYsYsYsYs}", "#2x2x2ssssssss;", "([ss][ss][ss][ss])", "(sss.s)", "{Y[s[s[s]]]}", "(bbbbbb)", "(BBBBBBBB)", "(cccccccccccccccccccc)",
 }
 
 // zzC19TextTrip prints form with the right margin set to margin, reads the
 // text back and compares with the form (as plain data).
-func zzC19TextTrip(form slip.Object, margin int64) {
+func zzC19TextTrip(form slip.Object, margin int64, note bool) {
 	scope := slip.NewScope()
 	scope.Let(slip.Symbol("*print-right-margin*"), slip.Fixnum(margin))
 	var text []byte
@@ -719,7 +723,9 @@ func zzC19TextTrip(form slip.Object, margin int64) {
 	vrt.Assert(rd.class == 0, "pretty printed load form is not readable")
 	vrt.Assert(len(code) == 1, "pretty printed load form reads as another number of forms")
 	vrt.Assert(zzC19Same(zzC19Sexp(code[0]), zzC19Sexp(form)), "pretty printed load form reads back as a different form")
-	vrt.Note("text", string(text))
+	if note { // not when the text depends on Go map iteration order
+		vrt.Note("text", strconv.Quote(string(text)))
+	}
 }
 
 func zzC19Margin() int64 {
@@ -739,7 +745,7 @@ func VerifC19TextData(shape int) {
 	margin := zzC19Margin()
 	// a wrapped quoted list below a moved parent: Quote.setLeft leaves its child behind
 	vrt.Carve("C19-pp-quote-child-not-shifted", shape == 24 && margin < 28)
-	zzC19TextTrip(form, margin)
+	zzC19TextTrip(form, margin, !g.multiHT)
 }
 
 // VerifC19TextCode: load form of a call (kind 0) or lambda (kind 1) template
@@ -755,7 +761,7 @@ func VerifC19TextCode(kind int, tmpl int) {
 		src := u.subst(slip.ReadString(zzC19Lambdas[tmpl].src, scope)[0]).(slip.List)
 		form = scope.Eval(src, 0).(slip.LoadFormer).LoadForm()
 	}
-	zzC19TextTrip(form, zzC19Margin())
+	zzC19TextTrip(form, zzC19Margin(), true)
 }
 
 // ---------------------------------------------------------------------------
@@ -796,7 +802,7 @@ var zzC19Defs = []zzC19DefT{
 	           (defmethod zzc19l :around ((x fixnum) &optional (o $i)) (list (call-next-method)))`, "zzc19l", -1},
 	/* 12 */ {`(defun zzc19m (x) (lambda (y) (+ x y $i)))`, "zzc19m", -1},
 	/* 13 */ {`(defun zzc19n (x) $d (with-output-to-string (out) (format out $s x)) (block nil (return (list x))))`, "zzc19n", -1},
-	/* 14 */ {`(defflavor zzc19o (a b c) () (:inittable-instance-variables a b) (:gettable-instance-variables a c) (:init-keywords :kk))`, "zzc19o", -1},
+	/* 14 */ {`(defflavor zzc19o (a b c) () (:inittable-instance-variables b) (:gettable-instance-variables a c) (:init-keywords :kk))`, "zzc19o", -1},
 	/* 15 */ {`(defclass zzc19p () ((a :writer zzc19p-set-a :initform $i)))`, "zzc19p", -1},
 	/* 16 */ {`(defun zzc19q (x) "use _x_ here" (list x $i))`, "zzc19q", 1},
 	/* 17 */ {`(defun zzc19r (x) "say \"hi\" now" (list x $i))`, "zzc19r", 1},
@@ -871,7 +877,7 @@ func VerifC19Defs(tmpl int, text int) {
 		margin := zzC19Margin()
 		// a documentation string that does not fit is wrapped inside the literal
 		vrt.Carve("C19-pp-doc-wrapped", margin < zzC19DocFit[tmpl])
-		zzC19TextTrip(form, margin)
+		zzC19TextTrip(form, margin, true)
 	}
 	renamed := zzC19Rename(form, t.name)
 	// evaluate a separate copy: defun compiles the body lists in place
@@ -940,7 +946,9 @@ func VerifC19SnapVar(shape int, text int) {
 		rd := zzC19Run(func() slip.Object { code = slip.Read(b, slip.NewScope()); return nil })
 		vrt.Assert(rd.class == 0 && len(code) == 1, "the setq form of the snapshot is not readable")
 		form = code[0]
-		vrt.Note("text", string(b))
+		if !g.multiHT {
+			vrt.Note("text", strconv.Quote(string(b)))
+		}
 	}
 	vv.Val = nil
 	out := zzC19Run(func() slip.Object { return slip.NewScope().Eval(form, 0) })
@@ -1007,7 +1015,7 @@ func VerifC19FlavorMethod(tmpl int, text int) {
 	form := zzC19Sexp(zzC19MethForm(t.flavor, t.method, t.daemon))
 	vrt.Assert(fl != nil && form != nil, "no defmethod form for a defined method")
 	if text != 0 {
-		zzC19TextTrip(form, zzC19Margin())
+		zzC19TextTrip(form, zzC19Margin(), true)
 	}
 	renamed := zzC19Rename(form, t.flavor)
 	re := zzC19Run(func() slip.Object {
